@@ -46,6 +46,13 @@ class GetItems(GetOnly):
         return self._d.items()
 
 
+class GetItemsIter(GetOnly):
+    """items() hands out a one-shot iterator (a generator over the wire headers)."""
+
+    def items(self):
+        return iter(list(self._d.items()))
+
+
 class Exploding:
     def get(self, k, default=None):
         raise RuntimeError("boom")
@@ -113,6 +120,14 @@ def build_exc(case: dict, value):
         e.headers = GetOnly({key: value})
     elif shape == "get_items":
         e.headers = GetItems({key: value})
+    elif shape == "get_items_iter":
+        e.headers = GetItemsIter({"Content-Type": "x", key: value})
+    elif shape == "pairs_gen":
+        e.headers = ((k, v) for k, v in [("X", "1"), (key, value)])  # one-shot iterables of pairs
+    elif shape == "pairs_iter":
+        e.headers = iter([("X", "1"), (key, value)])
+    elif shape == "pairs_zip":
+        e.headers = zip(["X", key], ["1", value])
     elif shape == "response":
         e.response = Resp({key: value})
     elif shape == "response_pairs":
@@ -295,7 +310,7 @@ def _short(v):
 
 # ---------------------------------------------------------------------------- generators
 
-SHAPES = ["attr", "dict", "dict", "dict_extra", "pairs", "get_only", "get_items", "response", "response_pairs", "exploding", "attr_and_header", "empty_headers_and_response"]
+SHAPES = ["attr", "dict", "dict", "dict_extra", "pairs", "get_only", "get_items", "response", "response_pairs", "exploding", "attr_and_header", "empty_headers_and_response", "get_items_iter", "pairs_gen", "pairs_iter", "pairs_zip"]
 KEYS = ["Retry-After", "retry-after", "RETRY-AFTER", "ReTrY-aFtEr", "Retry-after"]
 
 
